@@ -6,7 +6,7 @@ CONSTANTS
   Widths = {1, 2}
   Starts = {1}
   Signs = {1, 2}
-  RotIdx = {3, 9}
+  RotIdx = {9}
   DipIdx = {1}
   SizeIdx = {1}
   Deviations = {}
